@@ -185,8 +185,15 @@ func (s *Suite) Execute(set *plug.Set) (*Outcome, error) {
 	var plan bytes.Buffer
 	for _, c := range s.Cases {
 		sh := byKey[c.RpcKey]
-		op := drv.Op{Op: "raw", Case: c.ID, Call: 1, Pkg: s.pkgOf(sh), Verb: sh.Rpc.Verb, URL: c.C.URL, Headers: c.C.Headers,
+		op := drv.Op{Op: "raw", Case: c.ID, Call: 1, Pkg: s.pkgOf(sh), Verb: sh.Rpc.Verb, URL: c.C.URL,
 			BodyB64: base64.StdEncoding.EncodeToString(c.C.Body), NoBody: c.C.NoBody, Hook: hookString(c.A.Hook)}
+		for _, h := range c.C.Headers {
+			if utf8.ValidString(h[1]) {
+				op.Headers = append(op.Headers, h)
+			} else {
+				op.HeadersB64 = append(op.HeadersB64, [2]string{h[0], base64.StdEncoding.EncodeToString([]byte(h[1]))})
+			}
+		}
 		h := c.A.Handler
 		switch h.Kind {
 		case "ok":
